@@ -191,6 +191,46 @@ def work(job):
         files = {"src/sized.rs": data}
         res["counters"]["sized_files"] = 1
         res["counters"]["sized_files_gt4MiB"] = int(len(data) > (4 << 20))
+    elif kind == "lookalike":
+        # two to four files of exactly the same length that share their first and last H bytes (a licence header, a generated
+        # footer) and differ only in the middle: each is a file of its own - what one of them holds says nothing about the others
+        eol = "\n"
+        H = rnd.choice([300, 4096, 4200, 9000, 70000])
+        head = "".join("// licence header line %04d of a text every file of the project starts with ........\n" % k for k in range(H // 80 + 1))
+        tail = "".join("// generated footer line %04d, the same in every file ................................\n" % k for k in range(H // 80 + 1))
+        nf = rnd.choice([2, 2, 3, 4])
+        mids = []
+        for fi in range(nf):
+            sts = []
+            shapes = ["ref", "none", "ref", "none"][:rnd.choice([2, 3, 4])]
+            rnd.shuffle(shapes)
+            for k, sh in enumerate(shapes):
+                f = dict(gen.NEUTRAL)
+                f["nkv"] = rnd.choice([0, 1])
+                f["pre"] = "indent"
+                f["ref"] = "valid" if sh == "ref" else "none"
+                sts.append(gen.build_stmt(f, "LK%d_%d_%d" % (i, fi, k), rnd, eol=eol, ref_id=(100 * (fi + 1) + k) if sh == "ref" else None))
+            mids.append(sts)
+        size = lambda sts: sum(len((pre + st.text + post + eol).encode()) for pre, st, post in sts)
+        M = max(size(m) for m in mids) + 8
+        files, truth = {}, {}
+        for fi, sts in enumerate(mids):
+            gf = gen.GenFile(eol)
+            gf.raw(head)
+            gf.raw("fn lookalike_%d() {%s" % (0, eol))
+            for pre, st, post in sts:
+                gf.add_stmt(pre, st, post)
+                gf.newline()
+            gf.raw("//" + "p" * (M - size(sts) - 3) + eol)
+            gf.raw("}" + eol)
+            gf.raw(tail)
+            rel = "src/%s/gen_%d.rs" % (rnd.choice(["a", "b", "gen"]), fi)
+            files[rel] = gf.data()
+            truth[rel] = [(it.start, it.end, it.start + it.stmt.msg,
+                           (int(it.stmt.ref_kv) if (structured and it.stmt.ref_kv is not None) else (it.stmt.ref_msg if not structured else None)), it)
+                          for it in gf.stmts()]
+        assert len({len(d) for d in files.values()}) == 1
+        res["counters"]["lookalike_trees"] = 1
     elif kind == "crafted":
         # hand-written edge cases (shared with C17) plus byte-level oddities around insertion points
         from . import c17
@@ -300,6 +340,8 @@ def main(tier):
         jobs.append((built, "big", ck.seed, i, n))
     for i in range(8):
         jobs.append((built, "crafted", ck.seed, i, i % 4))
+    for i in range(60 if quick else 1500):
+        jobs.append((built, "lookalike", ck.seed, i, None))
     for i in range(150 if quick else 1500):
         jobs.append((built, "sized", ck.seed, i, i % 25 == 0))
     shards, reg = trees.corpus_shards(rnd, 16, registry_n=0 if quick else 1500)
